@@ -11,7 +11,8 @@ Line-protocol handlers for the ARP / DNS / DHCP codec streams of C14 and C08
 * `enc <fields> <rest-hex>`  build a value, encode it, decode `encoding ++ rest`;
                      answer `<encoding-hex> <answer of dec>`
 * `demux <hex>`      (arp, dhcp) the protocol's `demux` on that datagram
-* `sdemux <fetch> <hex>` (dhcp) `DhcpServer::demux`, `fetch` = `-` or the address `fetch_ip` yields
+* `sdemux <fetch> <hex> <pool>` (dhcp) `DhcpServer::demux`, `fetch` = `-` or the address `fetch_ip`
+  yields (`pool` is for the harness only)
 * `qname <hex>`      (dns) `DnsQuestion::query_name`
 -/
 namespace Driver.C14
@@ -145,7 +146,7 @@ def dhcpStep (I : DhcpImpl) (_ : Unit) (ws : List String) : Unit × String :=
   | ["demux", h] => match Driver.parseHex h with
     | some bs => ((), showDemux (I.clientDemux bs))
     | none => ((), "bad-op")
-  | ["sdemux", f, h] => match Driver.parseHex h with
+  | ["sdemux", f, h, _pool] => match Driver.parseHex h with
     | some bs => ((), showDemux (I.serverDemux (if f == "-" then none else f.toNat?) bs))
     | none => ((), "bad-op")
   | ["enc", op, ht, hl, hp, xid, secs, fl, ci, yi, si, ri, ch, mt, sn, bf, rest] =>
